@@ -442,7 +442,7 @@ def imp (fn : String) (a : List String) : Option String := do
     let rows ← decGrid? g
     if !obs.startsWith "rows " then some "FAILS" else
     let got ← decGrid? (obs.drop 5).toString
-    some (if Spec.Grid.holds (style.startsWith "csv" && style != "csv-all") rows got then "holds" else "FAILS")
+    some (if Spec.Grid.holds rows got then "holds" else "FAILS")
   | _, _ => none
 
 def dispatch (line : String) : String :=
